@@ -235,6 +235,9 @@ class Prop:
                 op = {"k": "probe", "o": r.randrange(npool + 2), "name": r.choice(["value", "label"])}
             else:
                 op = G.gen_graph_op(r, npool)
+                if r.random() < 0.05:
+                    op = {"k": "del_attr", "o": r.randrange(npool + 1),
+                      "name": r.choice(["child", "children", "children", "table", "group"])}
                 if shared_container and r.random() < 0.5:
                     op["o"] = handlers[0]["root"]
             if op["k"] not in ("obs", "unobs", "poison_try", "gc", "thread", "deliver") \
@@ -271,6 +274,7 @@ class Prop:
         cfg = trace["config"]
         self._pushed = False
         world = G.World(env, cfg["npool"])
+        world.del_enabled = True
         self._world = world
         sched = Sched(env)
         self._sched = sched
